@@ -185,3 +185,77 @@ PROPS['C26'] = {
     'rule': 'proof obligation = one complete Kani harness (all CBMC checks incl. safety checks SUCCESS, covers SATISFIED)',
     'not_covered': ['resolver stacking (Context::build_default_sync_resolver / async)', 'async flavour'],
 }
+
+
+PROPS['C11'] = {
+    'level': 'proof',
+    'level_text': 'Complete Kani harness on the real container_from_stream + format_from_stream: for every 20-byte prefix, every length 0..=20 and every container class '
+                  'the hint may map to (or none), the format used for reading maps to the container detected from the bytes; the hint survives only when it names the same '
+                  'container family or nothing is detectable; the stream is rewound. All inputs of the sniffing kernel, which a test corpus cannot enumerate.',
+    'level_note': 'container_from_format (lazy-static HashMap of handlers) replaced by an arbitrary-but-fixed function of the hint; that handlers of one container id behave alike for different format strings, and the pdf feature branch, are not covered.',
+    'technique': TECH_K + ' (loop bounds constant, inputs unconstrained: complete)',
+    'parts': [K('kani:hint_independent', 'sdk', [H('c11_hint_independent')], timeout=1200,
+                functions=[('sdk/src/jumbf_io.rs', 'container_from_stream'), ('sdk/src/jumbf_io.rs', 'format_from_stream')],
+                stubs=['container_from_format -> arbitrary-but-fixed function of the hint'])],
+    'trusted_base': TB_KANI,
+    'rule': 'proof obligation = CBMC check of a complete harness (assertions + Kani safety checks + unwinding assertions); covers must be SATISFIED',
+    'not_covered': ['Reader/Store paths after the format is chosen', 'ID3-prefixed audio beyond the first 20 bytes', 'feature pdf'],
+}
+
+PROPS['C35'] = {
+    'level': 'model_checking',
+    'level_text': 'Narrow and bounded: Kani harness on the real container_from_stream with a stream whose first 2 (quick) / 3 (thorough) reads return an arbitrary '
+                  'number >= 1 of the bytes asked for: for every 16-byte prefix and length the sniffing result equals that of a full-read cursor. '
+                  'Bounded in the number of short reads only; the prefix bytes are unconstrained.',
+    'level_note': 'Only the format-sniffing read (the anchor "single read" site). I/O fault injection and short reads on every other path: not covered by any contract here.',
+    'technique': TECH_K + ' (bounded stream schedules)',
+    'parts': [K('kani:sniff_piece_sizes', 'sdk', [H('c35_sniff_independent_2_short_reads', 'bounded', '<= 2 short reads of arbitrary size, then full reads; 16 symbolic bytes'),
+                                                  H('c35_sniff_independent_3_short_reads', 'bounded', '<= 3 short reads of arbitrary size, then full reads; 16 symbolic bytes', tier='thorough')],
+                kind='bounded', timeout=1500, functions=[('sdk/src/jumbf_io.rs', 'container_from_stream')])],
+    'trusted_base': TB_KANI,
+    'rule': 'evaluations = CBMC checks decided in bounded harnesses; every one is an assertion or safety check over symbolic inputs (all counted as non-trivial)',
+    'not_covered': ['BoxReader::read_header and all handler read loops', 'failing streams (I/O errors at the k-th call)', 'write side'],
+}
+
+PROPS['C23'] = {
+    'level': 'proof',
+    'level_text': 'Complete Kani harness on the real Context::check_progress (the checkpoint every phase goes through): Ok iff (no callback or it returned true) and the cancel '
+                  'flag is clear; Err is OperationCancelled; the callback runs exactly once when present - for all steps and totals. Propagation through '
+                  'DataHash::verify_stream_hash_with_progress is proved in Verus (hasher error returned unchanged). Propagation at the public API is a bounded stand-in.',
+    'level_note': 'cross-thread cancel() timing not applicable (no thread support); Claim::verify_hash_binding is outside both verifiers and is covered by the native stand-in only.',
+    'technique': TECH_K + ' (checkpoint: complete); ' + TECH_V + ' (propagation through the data-hash glue)',
+    'parts': [K('kani:checkpoint', 'sdk', [H('c23_checkpoint_contract')], timeout=900, functions=[('sdk/src/context.rs', 'check_progress')],
+                stubs=['std::panic::catch_unwind -> call the closure (Kani cannot compile the unwinding intrinsic)']),
+              V('verus:datahash_verify', 'datahash_verify')],
+    'trusted_base': TB_KANI + TB_VERUS[2:],
+    'rule': 'proof obligation = CBMC check of a complete harness, or one Verus function query',
+    'not_covered': ['cancel() from another thread at random delays', 'sign / ingredient flows end to end'],
+}
+
+PROPS['C10'] = {
+    'level': 'proof',
+    'level_text': 'Narrow: only the resource guards the property names. Complete Kani harnesses on the real code: BoundedVecWriter::write keeps |inner| <= max_len, '
+                  'appends exactly the buffer or leaves the writer unchanged; ReaderUtils::read_to_vec fails before allocating whenever more is asked than is left, for all (len, pos, want) in u64^3.',
+    'level_note': 'NOT a proof that no input panics or hangs; parsers of the individual formats are outside reach. sizes <= 2^20 in the writer harness.',
+    'technique': TECH_K,
+    'parts': [K('kani:resource_guards', 'sdk', [H('c10_bounded_writer_invariant'), H('c10_read_to_vec_guard')], timeout=1200,
+                functions=[('sdk/src/utils/io_utils.rs', 'write', r'impl Write for BoundedVecWriter \{'), ('sdk/src/utils/io_utils.rs', 'read_to_vec')])],
+    'trusted_base': TB_KANI,
+    'rule': 'proof obligation = CBMC check of a complete harness',
+    'not_covered': ['every format parser', 'stack depth', 'running time', 'CBOR / COSE / X.509 / brotli / XML decoders'],
+}
+
+PROPS['C04'] = {
+    'level': 'model_checking',
+    'level_text': 'Bounded Kani harnesses on the real ValidationResults::validation_state built through the public add_active_manifest / add_ingredient_delta: '
+                  'state == specification from the statement for <= 2-3 entries per list and codes drawn from the three success codes, both tolerated classes, a standard failure '
+                  'and an unknown code. The function is a Boolean combination of exists/forall over lists, so a dropped or inverted conjunct has a witness within these bounds.',
+    'level_note': 'bounded list lengths; Reader::validation_state legacy fallback (needs a Reader) not covered.',
+    'technique': TECH_K + ' (bounded)',
+    'parts': [K('kani:validation_state', 'sdk', [H('c04_state_matches_spec_active_only', 'bounded', '<= 2 success and <= 2 failure codes from a 7-code universe, active manifest optional'),
+                                                 H('c04_state_matches_spec_with_delta', 'bounded', '3 symbolic success codes, optional active failure, optional ingredient delta with optional failure')],
+                kind='bounded', timeout=1800, unwindset=['memcmp.0:41'], functions=[('sdk/src/validation_results.rs', 'validation_state')])],
+    'trusted_base': TB_KANI,
+    'rule': 'evaluations = CBMC checks decided in bounded harnesses over symbolic code selections',
+    'not_covered': ['Reader::validation_state fallback for legacy results', 'how status codes are produced (validators)'],
+}
